@@ -18,17 +18,25 @@ Implementation oracle (independent of the model), run on every case:
  (ii) bytes held, measured without private names: walk of the object graph reachable from the
       connection (gc.get_referents) summing len() of every bytes/bytearray; growth since the
       post-handshake baseline must stay within advertised max_data + MAX_PENDING_CRYPTO (if CRYPTO
-      was sent) + a fixed slack."""
+      was sent) + a fixed slack;
+ (iii) every cap of `buffer_bounded`, checked on the real connection by LABELLED PEEK (private reads, named in CapPeek)
+      after EVERY peer frame (the frame-handler table of the subject is wrapped by an observer that runs after a handler
+      returned normally) and after every datagram: pending RETIRE_CONNECTION_ID, active connection IDs, remote challenges
+      per path and in total, network paths, local challenges, CRYPTO reassembly buffers, the TLS message buffer, stream
+      reassembly buffers against the windows seen on the wire.  The caps come from the tree's constants
+      (tools/gen/c07_consts.py caps()), not from the model.  A cap exceeded after an accepted frame is a violation."""
 import collections
 import gc
+import importlib.util
 import json
 import logging
+import os
 import types
 
 from vlib import core, corr
 
 GENERATORS = ["c07_consts"]
-DEPENDS = ["ConnLimits", "ConnLimitsCut", "ConnLimitsP", "ConnLimitsMsd", "ConnLimitsCutP", "ConnLimitsDeliv", "StreamRecv", "StreamRecvP", "RangeSet", "C07Consts", "Base", "Tok", "C07"]
+DEPENDS = ["ConnLimits", "ConnLimitsCut", "ConnLimitsP", "ConnLimitsBurst", "ConnLimitsMsd", "ConnLimitsCutP", "ConnLimitsDeliv", "StreamRecv", "StreamRecvP", "RangeSet", "C07Consts", "Base", "Tok", "C07"]
 TRUSTED_BASE = [
     "extraction (ExtrOcamlBasic only) + coq/extract/driver.ml for running coq/model/ConnLimits.v",
     "harness/sim (Pair, wire observer, peer puppet: packet protection via aioquic's own CryptoContext; independent frame builders/parser)",
@@ -36,6 +44,10 @@ TRUSTED_BASE = [
     "datagrams_to_send pass, LimitLost / StreamLimitLost per MAX_* frame of a packet that left the subject's set of in-flight packets "
     "without having been acknowledged by the puppet (one private read: conn._loss.spaces[-1].sent_packets, used for the projection "
     "only, never for a verdict), placed where the revealing ACK frame stood among the peer frames of that datagram",
+    "oracle (iii) CapPeek: private reads of the lengths of the capped collections (conn._retire_connection_ids, _peer_cid_available, "
+    "_network_paths[*].remote_challenges, _local_challenges, _crypto_streams[*].receiver._buffer, tls._receive_buffer, "
+    "_streams[*].receiver._buffer, _close_pending / _close_event) and an observer wrapped around the entries of "
+    "conn._QuicConnection__frame_handlers (calls the original handler, looks after it returned); caps from tools/gen/c07_consts.py caps()",
     "modelled, not verified: the receive-side limit logic of connection.py as Gallina functions; TLS, packet building, pacing, "
     "congestion control and the ack queue are outside the model",
     "tools/gen/c07_consts.py (ast) for the constants",
@@ -83,6 +95,156 @@ def reachable_bytes(root, max_depth=16):
             if not isinstance(r, _SKIP):
                 stack.append((r, d + 1))
     return total
+
+
+# ------------------------------------------------------------------------------ oracle (iii): caps by labelled peek
+_CAPS = None
+
+
+def caps():
+    """documented caps of the tree under test, from tools/gen/c07_consts.py (ast of the source; not from the model)"""
+    global _CAPS
+    if _CAPS is None:
+        root = os.path.dirname(os.path.dirname(os.path.dirname(os.path.abspath(__file__))))
+        spec = importlib.util.spec_from_file_location("c07_consts_caps", os.path.join(root, "tools", "gen", "c07_consts.py"))
+        mod = importlib.util.module_from_spec(spec)
+        spec.loader.exec_module(mod)
+        _CAPS = mod.caps()
+    return _CAPS
+
+
+class CapPeek:
+    """Observer of the bounded collections of `buffer_bounded` on the subject connection.  LABELLED PEEKS (private names,
+    read only, each guarded: a name that does not exist is counted in `unavailable`):
+      retire_queue       len(conn._retire_connection_ids)         <= min(4 * active_connection_id_limit, MAX_PENDING_RETIRES)
+                                                                     (+ RETIRE_CONNECTION_ID frames of packets the subject declared lost:
+                                                                      the delivery callback queues them again)
+      active_cids        1 + len(conn._peer_cid_available)         <= active_connection_id_limit
+      remote_challenges  max len(path.remote_challenges)           <= MAX_REMOTE_CHALLENGES   (conn._network_paths + the path of the
+                                                                                               packet being processed)
+      challenges_total   sum len(path.remote_challenges)           <= MAX_NETWORK_PATHS * MAX_REMOTE_CHALLENGES
+      network_paths      len(conn._network_paths)                  <= MAX_NETWORK_PATHS
+      local_challenges   len(conn._local_challenges)               <= MAX_LOCAL_CHALLENGES
+      crypto_buffer      max len(conn._crypto_streams[*].receiver._buffer)   <= MAX_PENDING_CRYPTO
+      tls_buffer         len(conn.tls._receive_buffer)             <  max(4, MAX_HANDSHAKE_MESSAGE_SIZE)
+      stream_buffer      len(stream.receiver._buffer) per stream   <= largest MAX_STREAM_DATA seen on the wire for it (else the
+                                                                     transport parameter)
+      stream_buffers     sum over conn._streams                    <= largest MAX_DATA seen on the wire (else the transport parameter)
+    The per-frame observer wraps the entries of conn._QuicConnection__frame_handlers (it calls the original handler and,
+    when that returned normally, looks; exceptions pass through untouched)."""
+
+    def __init__(self, runner):
+        self.r = runner
+        self.conn = runner.sub.conn
+        self.k = caps()
+        self.peak = {}
+        self.over = {}            # label -> (size, cap, where)
+        self.checks = 0
+        self.frame_checks = 0
+        self.unavailable = set()
+        self.frame_no = 0
+        self.hooked = self._install()
+
+    def _install(self):
+        try:
+            table = self.conn._QuicConnection__frame_handlers
+            for ft, (h, ep) in list(table.items()):
+                table[ft] = (self._wrap(h), ep)
+            return True
+        except Exception:
+            self.unavailable.add("frame_handlers")
+            return False
+
+    def _wrap(self, h):
+        def observed(context, frame_type, buf):
+            h(context, frame_type, buf)
+            self.frame_no += 1
+            self.frame_checks += 1
+            self.check("frame #%d (type 0x%x) of datagram #%d" % (self.frame_no, frame_type, self.r.stats["packets"] + 1),
+                       getattr(context, "network_path", None))
+        return observed
+
+    def _get(self, label, fn):
+        try:
+            return fn()
+        except Exception:
+            self.unavailable.add(label)
+            return None
+
+    def sizes(self, path=None):
+        c, k, r = self.conn, self.k, self.r
+        out = {}
+        n = self._get("retire_queue", lambda: len(c._retire_connection_ids))
+        if n is not None:
+            out["retire_queue"] = (n, min(4 * k["LOCAL_ACTIVE_CID_LIMIT"], k["MAX_PENDING_RETIRES"]) + r._retire_requeued())
+        n = self._get("active_cids", lambda: 1 + len(c._peer_cid_available))
+        if n is not None:
+            out["active_cids"] = (n, k["LOCAL_ACTIVE_CID_LIMIT"])
+        paths = self._get("network_paths", lambda: list(c._network_paths))
+        if paths is not None:
+            if k["NETWORK_PATHS_CAP"] is not None:
+                out["network_paths"] = (len(paths), k["NETWORK_PATHS_CAP"])
+            if path is not None and all(p is not path for p in paths):
+                paths = paths + [path]
+            q = self._get("remote_challenges", lambda: [len(p.remote_challenges) for p in paths])
+            if q:
+                out["remote_challenges"] = (max(q), k["MAX_REMOTE_CHALLENGES"])
+                if k["NETWORK_PATHS_CAP"] is not None:
+                    out["challenges_total"] = (sum(q), (k["NETWORK_PATHS_CAP"] + (1 if path is not None else 0)) * k["MAX_REMOTE_CHALLENGES"])
+        n = self._get("local_challenges", lambda: len(c._local_challenges))
+        if n is not None:
+            out["local_challenges"] = (n, k["MAX_LOCAL_CHALLENGES"])
+        n = self._get("crypto_buffer", lambda: max(len(s.receiver._buffer) for s in c._crypto_streams.values()))
+        if n is not None:
+            out["crypto_buffer"] = (n, k["MAX_PENDING_CRYPTO"])
+        if k["TLS_MESSAGE_CAP"] is not None:
+            n = self._get("tls_buffer", lambda: len(c.tls._receive_buffer))
+            if n is not None:
+                out["tls_buffer"] = (n, max(4, k["TLS_MESSAGE_CAP"]) - 1)
+        st = self._get("stream_buffer", lambda: [(sid, len(s.receiver._buffer)) for sid, s in c._streams.items()])
+        if st is not None:
+            worst = None
+            for sid, n in st:
+                cap = r._adv_msd(sid)
+                if worst is None or n - cap > worst[0] - worst[1]:
+                    worst = (n, cap)
+            if worst is not None:
+                out["stream_buffer"] = worst
+            out["stream_buffers"] = (sum(n for _, n in st), r.adv_data)
+        return out
+
+    def check(self, where, path=None, frame=True):
+        """frame=True: called right after a frame handler returned normally (the frame was accepted).  frame=False: after
+        receive_datagram returned -- judged only while no close is pending (the frame that raised left its collection
+        one step over the cap; the connection is going away)."""
+        opened = self._get("state", lambda: not self.conn._close_pending and self.conn._close_event is None)
+        if opened is False or (opened is None and not frame):
+            return
+        self.checks += 1
+        for label, (size, cap) in self.sizes(path).items():
+            if size > self.peak.get(label, 0):
+                self.peak[label] = size
+            if size > cap and label not in self.over:
+                self.over[label] = (size, cap, where)
+                self.r._fail("%s: %d after %s, documented bound %d; %s%s"
+                             % (_CAP_TEXT.get(label, label), size, where, cap,
+                                "the frame was accepted" if frame else "every frame of the datagram was accepted",
+                                " and the connection is still open" if opened else ""),
+                             oracle="cap", cap=label)
+
+
+_CAP_TEXT = {
+    "retire_queue": "RETIRE_CONNECTION_ID frames queued (_retire_connection_ids)",
+    "active_cids": "active peer connection IDs (1 + _peer_cid_available)",
+    "remote_challenges": "path challenges queued on one path (remote_challenges)",
+    "challenges_total": "path challenges queued over all paths",
+    "network_paths": "network paths remembered (_network_paths)",
+    "local_challenges": "local challenges remembered (_local_challenges)",
+    "crypto_buffer": "bytes in a CRYPTO reassembly buffer",
+    "tls_buffer": "bytes in the TLS handshake-message buffer",
+    "stream_buffer": "bytes in a stream reassembly buffer (bound: the window on the wire for that stream)",
+    "stream_buffers": "bytes in all stream reassembly buffers (bound: MAX_DATA on the wire)",
+}
 
 
 # ------------------------------------------------------------------------------ the run
@@ -160,6 +322,21 @@ class Runner:
         self.congested = False     # after a bulk step ("K"): the subject's congestion window is exhausted, the builder may
                                    # refuse frames; every write pass is projected as WriteCut (model/ConnLimitsCut.v)
         self.bulk_bytes = 0
+        self._stash = ([], [])     # (expectations, frames) of the datagrams delivered since the last write pass ("Bn": no pump)
+        self.peek = CapPeek(self)  # oracle (iii)
+
+    def _retire_requeued(self):
+        """RETIRE_CONNECTION_ID frames the subject may have queued AGAIN: those of its packets that it no longer tracks
+        as in flight and that the puppet never acknowledged (declared lost: _on_retire_connection_id_delivery appends)"""
+        out = None
+        n = 0
+        for pn, names, _ in self.subject_pns:
+            if "RETIRE_CONNECTION_ID" in names and pn not in self.acked_done:
+                if out is None:
+                    out = self._outstanding()
+                if pn not in out:
+                    n += sum(1 for x in names if x == "RETIRE_CONNECTION_ID")
+        return n
 
     # -- helpers -----------------------------------------------------------------------
     def _remote_params(self):
@@ -425,6 +602,7 @@ class Runner:
             if not ack_first:
                 pos = len(self.min_in)
         data = self.pup.build_packet("1rtt", payload)
+        self.peek.frame_no = 0
         try:
             self.sub.receive_datagram(data, self.peer.addr)
             if on_received is not None:
@@ -437,12 +615,26 @@ class Runner:
             raise Closed()
         self.stats["packets"] += 1
         self.stats["frames"] += len(frames)
+        self.peek.check("datagram #%d" % self.stats["packets"], frame=False)
         self._events()
         had_reset = self.sent_reset
         if getattr(self, "_reset_after", False):
             self.sent_reset = True
         if not write:
+            # no datagrams_to_send() before the next datagram: the verdict on these frames is taken at the next write pass
+            self._stash = (self._stash[0] + expects, self._stash[1] + list(frames))
+            if frames:
+                self.stats["nopump_datagrams"] += 1
             return
+        self._write_judged(expects, frames, had_reset)
+
+    def _write_judged(self, expects=(), frames=(), had_reset=None):
+        """a write pass, then oracle (i) over the frames delivered since the previous one"""
+        expects = self._stash[0] + list(expects)
+        frames = self._stash[1] + list(frames)
+        self._stash = ([], [])
+        if had_reset is None:
+            had_reset = self.sent_reset
         first_bad = next((e for e in expects if e[0]), None)
         # frames are processed in order: an unjudged frame (outside the statement, e.g. on a stream the peer itself
         # completed) BEFORE the first over-limit frame may close the connection with a code of its own
@@ -595,8 +787,14 @@ class Runner:
                 k = op[0]
                 if k == "B":
                     self._packet(op[1])
+                elif k == "Bn":
+                    # a datagram after which the subject does NOT get to transmit (back-to-back arrival)
+                    self._packet(op[1], write=False)
                 elif k == "W":
-                    self._write()
+                    if self._stash[0]:
+                        self._write_judged()
+                    else:
+                        self._write()
                 elif k == "A":
                     # ack everything the subject sent; the ACK packet is followed by a write pass
                     allp = sorted({p for p, _, _ in self.subject_pns if p not in self.lost_done})
@@ -639,14 +837,21 @@ class Runner:
                     dv = int.from_bytes(bytes([op[1] & 0xFF]) * 8, "big")
                     self.min_in += [11, op[1], op[2]] + [dv] * op[2]
                     data = self.pup.build_packet("1rtt", [self.F.path_challenge(bytes([op[1] & 0xFF]) * 8)] * op[2])
+                    self.peek.frame_no = 0
                     self.sub.receive_datagram(data, ("10.9.%d.%d" % (op[1] // 250, op[1] % 250 + 1), 4000 + op[1]))
                     self.stats["packets"] += 1
+                    self.peek.check("datagram #%d" % self.stats["packets"], frame=False)
                     self._events()
-                    self._write()
+                    if len(op) > 3 and op[3]:
+                        self.stats["nopump_datagrams"] += 1
+                    else:
+                        self._write()
                 else:
                     self._packet([op])
                 if op is not self.case["ops"][-1] and self.stats["packets"] % (8 if len(self.case["ops"]) < 100 else 96) == 0:
                     self._measure()
+            if self._stash[0]:
+                self._write_judged()
         except Closed:
             pass
         self._measure()
@@ -656,6 +861,8 @@ class Runner:
 _CACHE = collections.OrderedDict()
 _DELIVERY = collections.Counter()     # measured over all distinct cases of this run (goes into the evidence)
 _CUT = collections.Counter()
+_PEEK = collections.Counter()         # oracle (iii): checks performed
+_PEEK_PEAK = {}                       # oracle (iii): largest size seen per capped collection
 _DELIVERY_KEYS = ("lost_limit_packets", "lost_limit_frames", "loss_at_ack", "loss_not_at_ack", "loss_by_timer", "acked_limit_packets",
                   "ack_gap_>=3", "ack_gap_<3", "deliver_no_limit_packet", "deliver_no_later_packet")
 
@@ -666,8 +873,17 @@ def _run_case(case):
     if r is None:
         r = Runner(case).run()
         r_small = {"min": r.min_in, "mout": r.mout, "bad": r.bad, "closed": r.closed, "stats": dict(r.stats),
-                   "growth": r.max_growth}
+                   "growth": r.max_growth, "peak": dict(r.peek.peak)}
         _CACHE[key] = r_small
+        _PEEK["cases"] += 1
+        _PEEK["cases_hooked_per_frame"] += int(r.peek.hooked)
+        _PEEK["checks"] += r.peek.checks
+        _PEEK["checks_after_a_frame"] += r.peek.frame_checks
+        _PEEK["nopump_datagrams"] += r.stats.get("nopump_datagrams", 0)
+        for lab, v in r.peek.peak.items():
+            _PEEK_PEAK[lab] = max(_PEEK_PEAK.get(lab, 0), v)
+        for lab in r.peek.unavailable:
+            _PEEK["unavailable_" + lab] += 1
         for k, v in r.stats.items():
             if k in _DELIVERY_KEYS or k.startswith("deliver_"):
                 _DELIVERY[k] += v
@@ -1053,6 +1269,189 @@ def gen_cut():
     return cases, cand
 
 
+NCID_PER_DATAGRAM = 45       # NEW_CONNECTION_ID frames (<= 31 bytes each) that fit into one datagram of the puppet
+
+
+def _deliver_burst(frames, mode, per=NCID_PER_DATAGRAM):
+    """ops delivering `frames` faster than the subject can drain its queues:
+      one        as many frames per datagram as fit, consecutive datagrams, NO datagrams_to_send() in between, then a write pass
+      each       one frame per datagram, no write pass in between, then a write pass
+      pump       one frame per datagram, a write pass after each (with an exhausted congestion window -- op K before -- the
+                 builder refuses RETIRE_CONNECTION_ID / PATH_RESPONSE / MAX_*: the queues cannot drain either)
+      chunk      `per` frames per datagram, a write pass after each datagram"""
+    if mode == "one":
+        return [["Bn", frames[i:i + per]] for i in range(0, len(frames), per)] + [["W"]]
+    if mode == "each":
+        return [["Bn", [f]] for f in frames] + [["W"]]
+    if mode == "pump":
+        return [list(f) for f in frames]
+    if mode == "chunk":
+        return [["B", frames[i:i + per]] for i in range(0, len(frames), per)]
+    raise ValueError(mode)
+
+
+def _ncid_class(cls, n, J):
+    """n NEW_CONNECTION_ID frames of one class, to be sent after ["N", J, J] (Retire Prior To = J, active = J, seen 0..7 and J,
+    nothing available).  Sequence number relative to Retire Prior To x raises it or not x seen before or not."""
+    if cls == "late":             # below, never seen, field 0: retired at once, Retire Prior To unchanged
+        return [["N", 8 + i, 0] for i in range(n)]
+    if cls == "late-own-rpt":     # below, never seen, field = own sequence number (still below Retire Prior To)
+        return [["N", 8 + i, 8 + i] for i in range(n)]
+    if cls == "late-mixed-rpt":   # below, never seen, fields 0 / own / J alternate (J does not raise: rpt > seq is refused first)
+        return [["N", 8 + i, (0, 8 + i, max(0, 7 + i))[i % 3]] for i in range(n)]
+    if cls == "late-dup":         # every late number twice: the second one is known
+        return [["N", 8 + i // 2, 0] for i in range(n)]
+    if cls == "below-seen":       # retired numbers of the handshake again
+        return [["N", i % 8, 0] for i in range(n)]
+    if cls == "equal-seen":       # the active one again
+        return [["N", J, (J, 0)[i % 2]] for i in range(n)]
+    if cls == "above-new":        # above, never seen, does not raise: fills _peer_cid_available
+        return [["N", J + 1 + i, (J, 0)[i % 2]] for i in range(n)]
+    if cls == "above-raise":      # above, never seen, raises Retire Prior To to itself: retires the active one each time
+        return [["N", J + 1 + i, J + 1 + i] for i in range(n)]
+    if cls == "above-seen-raise":  # announced first, then announced again with a larger Retire Prior To
+        out = []
+        for i in range(0, n, 2):
+            out += [["N", J + 1 + i, J + i], ["N", J + 1 + i, J + 1 + i]]
+        return out[:n]
+    if cls == "late-then-raise":  # late arrivals, every 10th frame raises Retire Prior To (the cap must not wait for it)
+        out, top = [], J
+        for i in range(n):
+            if i % 10 == 9:
+                top += 1
+                out.append(["N", top, top])
+            else:
+                out.append(["N", 8 + i, 0])
+        return out
+    if cls == "leap":             # each frame raises Retire Prior To far ahead, the next ones fall below it
+        out, top = [], J
+        for i in range(n):
+            if i % 4 == 0:
+                top += 100
+                out.append(["N", top, top])
+            else:
+                out.append(["N", top - 50 + i % 4, 0])
+        return out
+    raise ValueError(cls)
+
+
+NCID_CLASSES = ("late", "late-own-rpt", "late-mixed-rpt", "late-dup", "below-seen", "equal-seen", "above-new", "above-raise",
+                "above-seen-raise", "late-then-raise", "leap")
+
+
+def gen_bursts(rng, thorough, cap_retire=32, cap_chal=32, cap_paths=8):
+    """Bursts per bounded collection of `buffer_bounded`: more frames of the capped kind than the cap (up to 5x), arriving
+    faster than the endpoint drains them -- in one datagram, in consecutive datagrams without a write pass, one by one
+    with the congestion window exhausted -- and the same bursts with room to drain (a compliant-looking peer must not be
+    accused).  The caps are the tree's (c07_consts.caps())."""
+    cases = []
+    J = 1000
+    for subject in ("server", "client"):
+        pb, pu, ob, ou = _peer_sids(subject)
+        c = lambda ops, kind, msd=1000, md=4000: cases.append(_case(subject, msd, md, ops, kind=kind))
+        # ---- NEW_CONNECTION_ID: class x delivery x count around the cap and up to 5x
+        # after ["N", J, J] without a write pass 8 retirements (0..7) are queued already; with a write pass: none
+        for cls in NCID_CLASSES:
+            for mode, drained in (("one", False), ("one", True), ("each", False), ("each", True), ("pump", True), ("congested", False)):
+                room = cap_retire - (0 if drained else 8)
+                counts = (room - 1, room, room + 1, room + 2, 2 * cap_retire, 5 * cap_retire)
+                if not thorough:
+                    # quick tier: the whole table for back-to-back delivery on top of the leap, two counts for the rest
+                    if mode == "pump":
+                        counts = (room + 2,)
+                    elif not (mode == "one" and not drained):
+                        counts = (room + 1, 5 * cap_retire)
+                    if subject == "client" and mode in ("each", "congested") and cls not in ("late", "above-raise", "late-then-raise"):
+                        continue
+                for n in counts:
+                    frames = _ncid_class(cls, n, J)
+                    if mode in ("one", "each"):
+                        ops = [["N", J, J] if drained else ["Bn", [["N", J, J]]]] + _deliver_burst(frames, mode)
+                    elif mode == "pump":
+                        ops = [["N", J, J]] + _deliver_burst(frames, "pump")
+                    else:
+                        ops = [["K", 60000], ["N", J, J]] + _deliver_burst(frames, "pump")
+                    c(ops + [["W"], ["A"], ["W"]], "burst-ncid-%s-%s" % (cls, mode))
+        # the sequence number EQUAL to Retire Prior To and never seen: ["N", J + 5, J] makes Retire Prior To = J with J unknown
+        for mode in ("one", "pump"):
+            c([["Bn", [["N", J + 5, J]]]] + _deliver_burst([["N", J, 0], ["N", J, J], ["N", J, 0]] + _ncid_class("late", 40, J), mode) + [["W"]],
+              "burst-ncid-equal-new-%s" % mode)
+        # Retire Prior To above the sequence number inside a burst: PROTOCOL_VIOLATION, whatever is queued
+        c([["Bn", [["N", J, J]] + _ncid_class("late", 10, J) + [["N", 500, 501]] + _ncid_class("late", 40, J)[10:]], ["W"]], "burst-ncid-invalid-one")
+        # no leap at all: the handshake's connection IDs stay, numbers 8.. arrive with Retire Prior To 0 (available fills: cap 8)
+        c(_deliver_burst([["N", 8 + i, 0] for i in range(12)], "one") + [["W"]], "burst-ncid-available-one")
+        # ---- PATH_CHALLENGE on the active path: up to 5x the cap (excess is dropped silently, never more than the cap answered)
+        for n in (cap_chal - 1, cap_chal, cap_chal + 1, 2 * cap_chal, 5 * cap_chal):
+            fr = [["P", 5000 + i] for i in range(n)]
+            c(_deliver_burst(fr, "one", per=160), "burst-challenge-one")
+            c(_deliver_burst(fr, "one", per=20), "burst-challenge-one")
+            if n in (cap_chal + 1, 5 * cap_chal) or thorough:
+                c(_deliver_burst(fr, "each"), "burst-challenge-each")
+                c([["K", 60000]] + _deliver_burst(fr, "chunk", per=11) + [["W"], ["A"], ["W"]], "burst-challenge-congested")
+        # ---- PATH_CHALLENGE from other source addresses: 5x MAX_NETWORK_PATHS addresses, cap + 1 challenges each, no write pass
+        c([["Pa", i, cap_chal + 1, 1] for i in range(5 * cap_paths)] + [["W"]], "burst-paths-nopump")
+        c([["Pa", i % (cap_paths + 3), 7, i % 3] for i in range(5 * cap_paths)] + [["W"]], "burst-paths-mixed")
+        # ---- CRYPTO out of order (nothing reaches TLS: a gap is kept at the current offset), without write passes
+        fr = [["C", 10 + 997 * ((i * 37) % 60), 40] for i in range(60)]
+        c(_deliver_burst(fr, "one", per=25), "burst-crypto-one")
+        c(_deliver_burst(fr[:30] + [["C", 524288 - 40, 40]] + fr[30:] + [["C", 524288 - 39, 40]], "one", per=25), "burst-crypto-one")
+        c([["K", 60000]] + _deliver_burst(fr[:20], "pump") + [["W"]], "burst-crypto-congested")
+        # ---- in-order CRYPTO: an announced handshake message of (almost) the largest accepted size, body without write passes
+        c(_deliver_burst([["Ct", 1100, 524288 - 4]] * 30, "each") , "burst-tls-each")
+        # ---- STREAM: never-completed streams (gap at 0) pushed to the windows without a write pass (no window update can
+        #      go out): within the windows -> accepted, buffers bounded by them; the first frame beyond -> close
+        for total, kind in ((4000, "within"), (4001, "over")):
+            fr = [["S", pb + 4 * i, 1000 - 1, 1, i, 0, 1] for i in range(3)] + [["S", pu, total - 3000 - 1, 1, 7, 0, 1]]
+            c(_deliver_burst(fr + [["S", pu + 4 * i, 0, 0, 1, 0, 1] for i in range(20)], "one", per=30), "burst-stream-%s-one" % kind)
+            c(_deliver_burst(fr, "each"), "burst-stream-%s-each" % kind)
+            c([["K", 60000]] + _deliver_burst(fr, "pump") + [["W"], ["A"], ["W"]], "burst-stream-%s-congested" % kind)
+        # 5x the connection window in one burst: 20 streams of 1000
+        c(_deliver_burst([["S", pb + 4 * i, 999, 1, i, 0, 1] for i in range(20)], "one", per=10), "burst-stream-5x-one")
+        # stream count: 5 x 128 streams opened by empty frames in consecutive datagrams (the 129th must close)
+        for base in (pb, pu):
+            c(_deliver_burst([["S", base + 4 * i, 0, 0, 1, 0, 0] for i in range(128)], "one", per=128), "burst-stream-count-one")
+            c(_deliver_burst([["S", base + 4 * i, 0, 0, 1, 0, 0] for i in range(5 * 128)], "one", per=160), "burst-stream-count-one")
+    # ---- random NEW_CONNECTION_ID histories: every frame drawn relative to the current Retire Prior To / known numbers,
+    #      random delivery (same datagram, next datagram without write pass, write pass), with and without congestion
+    for _ in range(150 if thorough else 40):
+        subject = rng.choice(["server", "client"])
+        rpt, seen, ops, batch = 0, set(range(8)), [], []
+        if rng.random() < 0.25:
+            ops.append(["K", 60000])
+        greedy = rng.random() < 0.5          # mostly frames that queue a retirement
+        for _ in range(rng.randint(20, 5 * cap_retire)):
+            r = rng.random()
+            top = max(seen)
+            if r < (0.15 if greedy else 0.3):       # raises Retire Prior To: to itself / somewhere between
+                seq = top + rng.choice([1, 1, 2, 50])
+                new = rng.choice([seq, seq, rng.randint(rpt, seq)])
+            elif r < (0.8 if greedy else 0.5):      # below Retire Prior To, never seen when possible
+                free = [x for x in range(max(0, rpt - 60), rpt) if x not in seen]
+                seq = rng.choice(free) if free else rng.randint(0, max(0, rpt - 1))
+                new = rng.choice([0, seq, rng.randint(0, seq)])
+            elif r < 0.9:                           # known number again (below / equal / above), sometimes with a larger field
+                seq = rng.choice(sorted(seen))
+                new = rng.choice([0, min(seq, rpt), seq])
+            else:                                   # above, new, does not raise
+                seq = top + 1
+                new = rng.choice([0, rpt])
+            if rng.random() < 0.02:
+                new = seq + 1                       # invalid
+            batch.append(["N", seq, new])
+            seen.add(seq)
+            rpt = max(rpt, new) if new <= seq else rpt
+            d = rng.random()
+            if d < 0.55 and len(batch) < NCID_PER_DATAGRAM:
+                continue
+            ops.append(["Bn", batch] if d < 0.9 else ["B", batch])
+            batch = []
+        if batch:
+            ops.append(["Bn", batch])
+        ops += [["W"], ["A"], ["W"]]
+        cases.append(_case(subject, 1000, 4000, ops, seed=rng.randint(1, 5), kind="burst-ncid-random"))
+    return cases
+
+
 def gen_findings(thorough=False):
     """Inputs on which the unchanged tree violates the property (documented in docs/C07.md)."""
     cases = []
@@ -1087,13 +1486,17 @@ def _opname(o):
 
 def _nontrivial(c, out):
     # at least one frame was judged on the real connection and something observable happened
-    return len(out) > 0 and any(o[0] in ("S", "R", "B", "C", "P", "N", "T", "D", "K") for o in c["ops"])
+    return len(out) > 0 and any(o[0] in ("S", "R", "B", "Bn", "C", "Ct", "P", "Pa", "N", "T", "D", "K") for o in c["ops"])
 
 
 def _simplify(op):
-    if op[0] == "B" and len(op[1]) > 1:
+    if op[0] in ("B", "Bn") and len(op[1]) > 1:
+        if len(op[1]) > 3:
+            h = len(op[1]) // 2
+            yield [op[0], op[1][:h]]
+            yield [op[0], op[1][h:]]
         for i in range(len(op[1])):
-            yield ["B", op[1][:i] + op[1][i + 1:]]
+            yield [op[0], op[1][:i] + op[1][i + 1:]]
     if op[0] == "D":
         for i in range(len(op[4])):
             if len(op[4]) > 1:
@@ -1177,6 +1580,15 @@ def run(ctx):
     for fam in cfams.values():
         s.run(fam)
     candidates = run_candidates(ctx, s, cut_cand)
+    # bursts per bounded collection, delivered faster than the endpoint drains them (docs/C07.md "Bursts")
+    k = caps()
+    bfams = collections.OrderedDict()
+    for c in gen_bursts(rng, ctx.thorough, cap_retire=min(4 * k["LOCAL_ACTIVE_CID_LIMIT"], k["MAX_PENDING_RETIRES"]),
+                        cap_chal=k["MAX_REMOTE_CHALLENGES"], cap_paths=k["NETWORK_PATHS_CAP"] or 8):
+        key = c["kind"] if not c["kind"].startswith("burst-ncid-") else "burst-ncid-" + c["kind"].rsplit("-", 1)[1]
+        bfams.setdefault(key, []).append(c)
+    for fam in bfams.values():
+        s.run(fam)
     found = gen_findings(ctx.thorough)
     for kind in ("finding-reset-double-count",):
         s.run([c for c in found if c["kind"] == kind])
@@ -1191,7 +1603,8 @@ def run(ctx):
         "subject's own limit raises and such delivery outcomes); distinct = distinct projected "
         "op trace, non-trivial = at least one peer frame processed and an observable produced",
         {"delivery_outcomes": dict(sorted(_DELIVERY.items())), "cut_passes": dict(sorted(_CUT.items())),
-         "regression_witnesses_C07_F4": candidates})
+         "regression_witnesses_C07_F4": candidates,
+         "cap_peek": dict(sorted(_PEEK.items()), caps=dict(k), peak=dict(sorted(_PEEK_PEAK.items())))})
 
 
 def replay(ctx, rep):
